@@ -572,6 +572,40 @@ fn sanitizer_workload(args: &Args, prop: &'static str) -> i32 {
     }
 }
 
+/// Lean full-speed race rounds (th/race.rs).
+fn th_race(args: &Args, rep: &mut Report, prop: &'static str, rounds: u64, unmanaged: bool, close: bool) {
+    let seed = args.seed;
+    let jobs = (args.jobs / 4).max(1);
+    let engine = if unmanaged { "uth_race" } else { "th_race" };
+    let outs = vh_common::parallel(jobs, move |wk| {
+        let mut cov = Coverage::default();
+        let mut finds: Vec<Finding> = Vec::new();
+        let mut i = wk as u64;
+        while i < rounds {
+            let s = seed.wrapping_mul(104729).wrapping_add(i);
+            let out = if unmanaged { th::race::unmanaged_race(prop, s, close) } else { th::race::managed_race(prop, s, close) };
+            cov.evaluations += 1;
+            cov.events += out.events;
+            let _ = cov.distinct.insert(out.hash);
+            let _ = cov.nontrivial.insert(out.hash);
+            let _ = cov.schedules.insert(out.hash);
+            if let Some(v) = out.violations.first() {
+                if finds.len() < 4 {
+                    finds.push(Finding { v: v.clone(), sig: format!("{}/{}/{}", prop, if unmanaged { "uth_race" } else { "th_race" }, v.oracle), replay: out.desc.clone() });
+                }
+            } else if cov.samples.is_empty() {
+                cov.sample(out.desc);
+            }
+            i += jobs as u64;
+        }
+        (cov, finds)
+    });
+    for (cov, finds) in outs {
+        rep.engine(engine).merge(cov);
+        rep.add_findings(finds);
+    }
+}
+
 fn rule_for(prop: &str) -> &'static str {
     match prop {
         "C01" => "cases = seeded random task-level histories + thread-level sweep scenarios + chaos runs; distinct = hash of the full event log (sweep: the scenario; chaos: the schedule-point trace); non-trivial (tl) = at least one admission happened with the pool one below its limit, after the caller had to wait, or with other callers waiting; (sweep) = thread A was actually parked at the window",
@@ -619,6 +653,9 @@ fn main() {
             if args.engine_enabled("uth_chaos") {
                 th_chaos_unmanaged(&args, &mut rep, prop, sc(150.0, 3000.0), false);
             }
+            if args.engine_enabled("uth_race") {
+                th_race(&args, &mut rep, prop, sc(300.0, 12_000.0), true, prop == "C12");
+            }
             if args.engine_enabled("uth_hammer") {
                 th_chaos_unmanaged(&args, &mut rep, prop, sc(250.0, 6000.0), true);
             }
@@ -663,6 +700,9 @@ fn main() {
                 }
                 if args.engine_enabled("th_chaos") {
                     th_chaos_managed(&args, &mut rep, prop, sc(150.0, 3000.0), false);
+                }
+                if args.engine_enabled("th_race") && matches!(prop, "C06" | "C07") {
+                    th_race(&args, &mut rep, prop, sc(300.0, 12_000.0), false, prop == "C06");
                 }
                 if args.engine_enabled("th_hammer") {
                     th_chaos_managed(&args, &mut rep, prop, sc(250.0, 6000.0), true);
